@@ -4,8 +4,9 @@
                     chosen by createOnceCallable is read from the instantiated AST: the inline variant is
                     taken only if the callable fits the inline buffer (size <= kOnceFunctionInlineSize
                     and align <= alignof(OnceFunction)); the spill variant allocates a size class K with
-                    K >= sizeof, K a multiple of alignof, and every callable that does not fit inline
-                    does spill.
+                    K >= sizeof, K a multiple of alignof, the blocks of class K (pooled: K-aligned
+                    slabs; above 256: the alignment passed to alignedMalloc) are aligned to a multiple
+                    of alignof, and every callable that does not fit inline does spill.
   C39.layout        OnceFunction is 64 bytes, 64-byte aligned, with the invoke pointer after the inline
                     buffer; small-buffer ordinals map each size class to the allocator instantiated for
                     it (4,8,..,256), and the allocator carves its slabs (allocated with alignment K) in
@@ -29,6 +30,30 @@ def run(R):
     W = lambda k: (F.witnesses.get("dsa_driver::dsa_w_" + k) or {}).get("value")
     inline_size = W("once_inline_size")
     once_align = W("once_alignof")
+    # alignment of the block that allocSmallBuffer<K>() hands out, read from allocSmallOrLarge<K>:
+    # pooled classes are K-aligned (C39.layout: slab rule), large ones are whatever alignment the
+    # alignedMalloc call asks for (the one-argument overload asks for a cache line)
+    def malloc_alignment(fn, call, depth=0):
+        args = call.get("args", [])
+        if len(args) >= 2:
+            return const_val(args[1])
+        cf = F.callee_fn(fn, call)
+        if cf is None or depth > 2:
+            return None
+        inner = [nd for _, nd in cf.all_nodes() if nd.get("k") == "call" and (nd.get("callee") or "").endswith("alignedMalloc")]
+        return malloc_alignment(cf, inner[0], depth + 1) if len(inner) == 1 else None
+
+    block_align = {}
+    for fn in F.functions(qname="dispenso::detail::allocSmallOrLarge"):
+        K = (fn.targv or [None])[0]
+        if not isinstance(K, int):
+            continue
+        am = [nd for _, nd in fn.all_nodes() if nd.get("k") == "call" and (nd.get("callee") or "").endswith("alignedMalloc")]
+        pool = [nd for _, nd in fn.all_nodes() if nd.get("k") == "call" and (nd.get("callee") or "").endswith("allocSmallBufferImpl")]
+        if len(am) == 1 and not pool:
+            block_align[K] = malloc_alignment(fn, am[0])
+        elif len(pool) == 1 and not am:
+            block_align[K] = K
     n = 0
     seen = {}
     for fn in F.functions(qname="dispenso::detail::createOnceCallableImpl"):
@@ -46,8 +71,9 @@ def run(R):
         else:
             al = [nd for _, nd in fn.all_nodes() if is_call(nd, "dispenso::allocSmallBuffer")]
             K = (al[0].get("targv") or [None])[0] if al else None
-            ok = isinstance(K, int) and K >= size and K % align == 0
-            R.ob("C39.placement", fn, news[0], ok, "callable of %d bytes / align %d spilled to size class %s" % (size, align, K), sitekey=key, why=WHY)
+            ba = block_align.get(K)
+            ok = isinstance(K, int) and K >= size and K % align == 0 and isinstance(ba, int) and ba % align == 0
+            R.ob("C39.placement", fn, news[0], ok, "callable of %d bytes / align %d spilled to size class %s, whose blocks are %s-aligned" % (size, align, K, ba), sitekey=key, why=WHY)
         seen[(size, align)] = inline
     # completeness of the selection on the family: everything that does not fit is spilled
     for (size, align), inline in sorted(seen.items()):
@@ -56,6 +82,8 @@ def run(R):
             n += 1
             R.ob("C39.placement", None, "drivers/witness.cpp", not inline, "size %d align %d does not fit inline and is %s" % (size, align, "spilled" if not inline else "stored INLINE"), sitekey="selection:size%d:align%d" % (size, align), why=WHY)
     R.need("C39.placement", n, 12, "createOnceCallableImpl instantiations of the witness family")
+    R.need("C39.placement", sum(1 for k in block_align if k > 256), 1, "allocSmallOrLarge<K> instantiations for K above the pooled classes")
+    R.need("C39.placement", sum(1 for (sz, al), inl in seen.items() if not inl and sz > 256 and al > 64), 1, "witness callables that are both larger than the pooled classes and over-aligned")
 
     n = 0
     n += 1
